@@ -228,6 +228,35 @@ theorem pyConstraint_upper_partial {ev : Leaf → Bool} {G : Leaf → Prop} (S :
     (h : gpc m = .ok g) (hs : M.sem ev m = true) : g.allowsPlain (pyV X Y Z) = true :=
   gpc_upper S X Y Z m g hg hL hSp h hs
 
+/-- **exactness for python-only markers**: for a marker over `python_version` / `python_full_version` only whose
+DNF consists of python items (`DnfPy`: each conjunction is a python item or a conjunction of python items — the
+shape `dnf` returns unless it has already collapsed the marker), the range admits exactly the interpreters on
+which the marker holds.  Same hypotheses as the one-sided part (both directions of `SplitSound` are used). -/
+theorem pyConstraint_exact_partial {ev : Leaf → Bool} {G : Leaf → Prop} (S : LeafSpec ev G) (X Y Z : Nat)
+    (m : M) (g : VC) (hg : M.Good G m) (hv : ∀ n ∈ M.vars m, pyNames.contains n = true)
+    (hL : ∀ l, G l → convKey l.name = pyKey → LeafClause ev X Y Z l) (hSp : SplitSound X Y Z)
+    (hshape : ∀ d, dnf defaultFuel [] m = .ok d → DnfPy d)
+    (h : gpc m = .ok g) : M.sem ev m = g.allowsPlain (pyV X Y Z) :=
+  gpc_exact S X Y Z m g hg hv hL hSp hshape h
+
+/-- the hypotheses are satisfiable on a concrete object: a python item is a `LeafClause` as soon as its truth is
+the reference value of the item (here `python_version >= "3.8"` on CPython 3.8.1), and a one-leaf marker is its
+own DNF of the required shape -/
+example : let s : Single := ⟨"python_version", ">=", "3.8", false, .ver (.single (.rng ⟨some (v [3, 8]), none, true, false⟩))⟩
+    (∀ ev : Leaf → Bool, ev (.single s) = true → LeafClause ev 3 8 1 (.single s)) ∧
+    DnfPy (.leaf (.single s)) ∧ M.vars (.leaf (.single s)) = ["python_version"] := by
+  intro s
+  refine ⟨fun ev hev => ?_, ⟨by simp [membersIfUnion], fun c hc => ?_⟩, rfl⟩
+  · obtain ⟨item, bb, hitem, hmean, hevi⟩ := normalize_pair_exact env381 3 8 1 ⟨rfl, rfl⟩ "python_version" ">="
+      [3, 8] (by simp [RelOp]) (.short 3 8)
+    have hb : bb = true := by
+      have : evalItem "python_version" ">=" (relText [3, 8]) false env381 = some true := by decide
+      rw [this] at hevi; injection hevi with hevi; exact hevi.symm
+    subst hb
+    exact ⟨s, item, rfl, by simp [RelOp, s], hitem, by rw [hev]; exact hmean⟩
+  · simp [membersIfUnion] at hc; subst hc
+    exact Or.inl ⟨_, rfl, by decide⟩
+
 /-- a marker on another variable only: `only` answers `AnyMarker`, the range is universal -/
 example : gpc (.leaf (.single ⟨"sys_platform", "==", "linux", false, .gen (.s (.atom ⟨"linux", .eq, false⟩))⟩)) = .ok VC.any := by
   rfl
